@@ -737,6 +737,7 @@ def verdict(T, a, b):
     if same(a, b):
         return True
     if differs_numerically(T, a, b):
+        T.refuted = True  # the contract's replay() turns a numeric point into a native call of the real code
         return False
     raise Unsupported("normal forms differ but no numeric difference found (non-canonical radicand?)")
 
@@ -825,3 +826,22 @@ def conformance():
     if Lb.shape != (2, 2, 2) or not np.allclose(num(Lb[1]), np.linalg.cholesky(np.array([[9.0, 0.0], [0.0, 1.0]]))):
         bad.append(("cholesky-batched",))
     return bad
+
+
+def numeric_values(T, arrays, seed=0):
+    """{name: nested list of floats} of the indeterminate arrays at the random rational point used by differs_numerically"""
+    for sd in (seed, 1, 2, 3):
+        pt = T.numeric_point(sd)
+        if pt is not None:
+            break
+    else:
+        return None
+    env = pt[0]
+    out = {}
+    for k, arr in arrays.items():
+        a = np.asarray(arr, dtype=object)
+        vals = np.empty(a.shape, dtype=float)
+        for idx in itertools.product(*map(range, a.shape)):
+            vals[idx] = a[idx].evalf(pt)
+        out[k] = vals.tolist()
+    return out
